@@ -120,6 +120,23 @@ example : predictInplace (α := Int) (fun c x => (c.headD 0 - x.headD 0) * (c.he
     predictInplace (α := Int) (fun c x => (c.headD 0 - x.headD 0) * (c.headD 0 - x.headD 0))
       [[0], [10]] [[1], [9]] [7] = none := by decide
 
+/-- **the two `predict_inplace` calls the correspondence run makes** (Drv/C09 `handleFit`): on a buffer
+of `n` cells holding any value the answer is `predict`; on a buffer one cell short (`n ≥ 1`) it is the
+`assert_eq!` panic (`none`) — the code may not leave an observation without a cluster silently. -/
+theorem predict_inplace_driver_calls (rd : List α → List α → α) (cs xs : List (List α)) (v w : Nat)
+    (hx : xs ≠ []) :
+    predictInplace rd cs xs (List.replicate xs.length v) = some (predict rd cs xs) ∧
+    predictInplace rd cs xs (List.replicate (xs.length - 1) w) = none := by
+  have hpos : 0 < xs.length := List.length_pos_iff.mpr hx
+  constructor
+  · exact (predict_inplace_overwrites rd cs xs _).1 (by simp)
+  · exact (predict_inplace_overwrites rd cs xs _).2 (by simp; omega)
+
+example : predictInplace (α := Int) (fun c x => (c.headD 0 - x.headD 0) * (c.headD 0 - x.headD 0))
+      [[0], [10]] [[1], [9]] (List.replicate 2 7) = some [0, 1] ∧
+    predictInplace (α := Int) (fun c x => (c.headD 0 - x.headD 0) * (c.headD 0 - x.headD 0))
+      [[0], [10]] [[1], [9]] (List.replicate (2 - 1) 0) = none := by decide
+
 end AnyMetric
 
 section Field
@@ -436,6 +453,96 @@ theorem restarts_cost_antitone (conv : List (List α) → List (List α) → Boo
 example : (fit (α := Rat) sqL2 (fun _ _ => false) (fun _ => true) 1 [[0], [0], [10]] 1
       [[[10]], [[0]]]).map (·.inertia) = some (275 / 12) ∧
     (fit (α := Rat) sqL2 (fun _ _ => false) (fun _ => true) 1 [[0], [0], [10]] 2
+      [[[10]], [[0]]]).map (·.inertia) = some (4275 / 192) := by decide +kernel
+
+/-- **when `fit` answers `Err(InertiaError)`**: `min_inertia` starts at the sentinel `T` (the code's
+`F::infinity()`; the driver runs exactly `fit … (ltThr +∞)`), so no model is returned iff no restart has
+an inertia strictly below the sentinel — in IEEE arithmetic: every restart's summed distances are `+∞`
+or NaN.  No hypothesis on `T`. -/
+theorem fit_err_iff (rd : List α → List α → α) (conv : List (List α) → List (List α) → Bool)
+    (T : α) (k : Nat) (xs : List (List α)) (budget : Nat) (inits : List (List (List α))) :
+    fit rd conv (ltThr T) k xs budget inits = none ↔
+      ∀ init ∈ inits, ¬ cost rd (runOnce rd conv xs budget init).centroids xs < T := by
+  have h := (fitRuns_thr rd conv T xs budget inits).2
+  simp only [runOnce_inertia] at h
+  rw [← h, fit, finish]
+  cases fitRuns rd conv (ltThr T) xs budget inits <;> simp
+
+/-- … hence a model is returned as soon as one restart stays below the sentinel (the guard of the code,
+instead of the blanket hypothesis `∀ x, ltInf x = true` of `fit_succeeds`). -/
+theorem fit_succeeds_of_sentinel (rd : List α → List α → α)
+    (conv : List (List α) → List (List α) → Bool) (T : α) (k : Nat) (xs : List (List α))
+    (budget : Nat) (inits : List (List (List α)))
+    (h : ∃ init ∈ inits, cost rd (runOnce rd conv xs budget init).centroids xs < T) :
+    ∃ f, fit rd conv (ltThr T) k xs budget inits = some f := by
+  cases hf : fit rd conv (ltThr T) k xs budget inits with
+  | some f => exact ⟨f, rfl⟩
+  | none =>
+    obtain ⟨init, hi, hlt⟩ := h
+    exact absurd hlt ((fit_err_iff rd conv T k xs budget inits).mp hf init hi)
+
+example : fit (α := Rat) sqL2 (fun _ _ => false) (ltThr 10) 1 [[0], [0], [10]] 1 [[[0]]] = none ∧
+    (fit (α := Rat) sqL2 (fun _ _ => false) (ltThr 100) 1 [[0], [0], [10]] 1 [[[0]]]).map (·.inertia)
+      = some (275 / 12) := by decide +kernel
+
+/-- **the returned run is the best of all restarts, for the selection the code performs** (sentinel
+`T`, any value): the cost of the returned centroids is below the sentinel and the reported inertia is at
+most cost / n of what ANY restart returns — also of the restarts that were discarded against the
+sentinel.  (`fit_inertia_is_min` without its hypothesis `hl`.) -/
+theorem fit_inertia_is_min_of_sentinel (rd : List α → List α → α)
+    (conv : List (List α) → List (List α) → Bool) (T : α) (k : Nat) (xs : List (List α))
+    (budget : Nat) (inits : List (List (List α))) (f : Fitted α)
+    (h : fit rd conv (ltThr T) k xs budget inits = some f) :
+    cost rd f.centroids xs < T ∧
+    ∀ init ∈ inits, f.inertia ≤
+      cost rd (runOnce rd conv xs budget init).centroids xs / (xs.length : α) := by
+  unfold fit finish at h
+  cases hb : fitRuns rd conv (ltThr T) xs budget inits with
+  | none => rw [hb] at h; simp at h
+  | some b =>
+    rw [hb] at h
+    simp only [Option.map_some, Option.some.injEq] at h
+    obtain ⟨lt, mn⟩ := (fitRuns_thr rd conv T xs budget inits).1 b hb
+    obtain ⟨init0, _, rfl⟩ := fitRuns_mem rd conv (ltThr T) xs budget inits b hb
+    refine ⟨?_, ?_⟩
+    · rw [← h]; simpa [runOnce_inertia] using lt
+    · intro init hi
+      rw [← h, ← runOnce_inertia]
+      exact div_le_div_of_nonneg_right (mn init hi) (Nat.cast_nonneg _)
+
+/-- **budget monotonicity with restarts, for the selection the code performs** (squared-L2, sentinel
+`T` of any value, no hypothesis on it): whenever `fit` returns a model for both budgets `1 ≤ m ≤ m'`, the
+reported inertia and the within-cluster cost of the returned centroids for `m'` are at most those for
+`m`.  (`restarts_cost_antitone` without `hl`.) -/
+theorem restarts_cost_antitone_of_sentinel (conv : List (List α) → List (List α) → Bool)
+    (T : α) (k p : Nat) (xs : List (List α))
+    (inits : List (List (List α))) (hk : 0 < k)
+    (hi : ∀ i ∈ inits, i.length = k ∧ ∀ c ∈ i, c.length = p) (hx : ∀ x ∈ xs, x.length = p)
+    (m m' : Nat) (h1 : 1 ≤ m) (h : m ≤ m') (f f' : Fitted α)
+    (hf : fit sqL2 conv (ltThr T) k xs m inits = some f)
+    (hf' : fit sqL2 conv (ltThr T) k xs m' inits = some f') :
+    f'.inertia ≤ f.inertia ∧ cost sqL2 f'.centroids xs ≤ cost sqL2 f.centroids xs := by
+  obtain ⟨init, hin, e, _, ei⟩ := fit_some sqL2 conv (ltThr T) k xs m inits f hf
+  obtain ⟨hl', hd⟩ := hi init hin
+  have w : init ≠ [] := by intro h0; rw [h0] at hl'; simp at hl'; omega
+  have key : f'.inertia ≤ f.inertia := by
+    refine le_trans ((fit_inertia_is_min_of_sentinel sqL2 conv T k xs m' inits f' hf').2 init hin) ?_
+    rw [ei, runOnce_inertia]
+    exact div_le_div_of_nonneg_right
+      (lloyd_cost_antitone conv p xs init w hd hx m m' h1 h) (Nat.cast_nonneg _)
+  refine ⟨key, ?_⟩
+  have e1 := inertia_describes_returned sqL2 conv (ltThr T) k xs m inits f hf
+  have e2 := inertia_describes_returned sqL2 conv (ltThr T) k xs m' inits f' hf'
+  rw [e1, e2] at key
+  by_cases hn : xs.length = 0
+  · have : xs = [] := List.length_eq_zero_iff.mp hn
+    subst this; simp [cost, assign, sumS]
+  · have hpos : (0 : α) < (xs.length : α) := by exact_mod_cast Nat.pos_of_ne_zero hn
+    exact (div_le_div_iff_of_pos_right hpos).mp key
+
+example : (fit (α := Rat) sqL2 (fun _ _ => false) (ltThr 1000) 1 [[0], [0], [10]] 1
+      [[[10]], [[0]]]).map (·.inertia) = some (275 / 12) ∧
+    (fit (α := Rat) sqL2 (fun _ _ => false) (ltThr 1000) 1 [[0], [0], [10]] 2
       [[[10]], [[0]]]).map (·.inertia) = some (4275 / 192) := by decide +kernel
 
 /-- **initialised from the data ⇒ inside its bounding box**: if every initial centroid of every
